@@ -1,7 +1,7 @@
 (** C11 — Local-peak detection is sound and complete on every series (statements; proofs in P_C11).
     Stated over R; only the order of the samples is used. [peaks], [turning], [final_start], [pstart] are in model/M_peaks.v. *)
 From Coq Require Import Reals List Lia Lra Bool.
-From EQ Require Import lib.Num lib.NpList lib.Where model.M_peaks proofs.P_C11.
+From EQ Require Import lib.Num lib.NpList lib.Quad lib.Where model.M_peaks proofs.P_C11 proofs.P_C11_sel.
 Import ListNotations.
 Local Open Scope R_scope.
 
@@ -45,8 +45,64 @@ Proof. exact P_C11.C11_alternates. Qed.
 Theorem C11_ncyc_length : forall (indys : list nat) origin n, length (n_cyc_of (T:=R) indys origin n) = n.
 Proof. exact P_C11.C11_ncyc_length. Qed.
 
-(** NOT proved (partial; decided by the exhaustive correspondence only): that the parity selection [peaks_sel 1/2]
-    returns exactly the local maxima/minima, and the +0.5 / 0.25 step clauses of the cycle counter. *)
+(** * max / min selection (non-constant series: guard [first_up xs <> None]; the code's list for a constant series is [0,0])
+    [lmax xs i] / [lmin xs i] (P_C11_sel): for a plateau start i of the plateau-compressed series, the previous sample (if i > 0)
+    and the next different sample (if any) are both strictly lower / higher. For index 0 this is "the first strict move goes
+    down / up", for the final plateau "the last strict move goes up / down", as the code assigns them. *)
+Theorem C11_lmax_spec : forall (xs : list R) i, lmax xs i <->
+  (i = 0%nat \/ xat xs (i - 1) < xat xs i) /\ (forall j, next_diff xs i = Some j -> xat xs j < xat xs i).
+Proof. intros; reflexivity. Qed.
+Theorem C11_lmin_spec : forall (xs : list R) i, lmin xs i <->
+  (i = 0%nat \/ xat xs i < xat xs (i - 1)) /\ (forall j, next_diff xs i = Some j -> xat xs i < xat xs j).
+Proof. intros; reflexivity. Qed.
+(** ptype='max' / 'min' return exactly the reported indices that are local maxima / minima *)
+Theorem C11_sel_max : forall (xs : list R) i, first_up xs <> None ->
+  (In i (peaks_sel 1 xs) <-> In i (peaks xs) /\ lmax xs i).
+Proof. exact P_C11_sel.C11_sel_max. Qed.
+Theorem C11_sel_min : forall (xs : list R) i, first_up xs <> None ->
+  (In i (peaks_sel 2 xs) <-> In i (peaks xs) /\ lmin xs i).
+Proof. exact P_C11_sel.C11_sel_min. Qed.
+
+(** in particular index 0 is a 'max' iff the first strict move goes down, the final plateau is a 'max' iff the last strict
+    move goes up (and dually for 'min') *)
+Theorem C11_sel_index0 : forall (xs : list R), first_up xs <> None ->
+  (In 0%nat (peaks_sel 1 xs) <-> first_up xs = Some false) /\ (In 0%nat (peaks_sel 2 xs) <-> first_up xs = Some true).
+Proof. exact P_C11_sel.C11_sel_index0. Qed.
+Theorem C11_sel_final : forall (xs : list R), first_up xs <> None ->
+  (In (final_start xs) (peaks_sel 1 xs) <-> xat xs (final_start xs - 1) < xat xs (final_start xs)) /\
+  (In (final_start xs) (peaks_sel 2 xs) <-> xat xs (final_start xs) < xat xs (final_start xs - 1)).
+Proof. exact P_C11_sel.C11_sel_final. Qed.
+
+(** * cycle counter [n_cyc_of indys origin n] = np.interp(arange(n), ind, cyc) for any strictly ascending index list [indys]
+    (the C11 peak list or the C12 switched-peak list): [ncyc_ind indys] is [indys] with index 0 prepended when missing,
+    [ncyc_val origin k] = 0 for k = 0 and k/2 - 1/4 (origin) or k/2 (peak) for k >= 1 *)
+Theorem C11_ncyc_val_spec : forall origin k, ncyc_val origin k = if Nat.eqb k 0 then 0 else / 2 * INR k + (if origin then - / 4 else 0).
+Proof. intros; reflexivity. Qed.
+(** value at the k-th reported index ... *)
+Theorem C11_ncyc_at_reported : forall indys origin n k, ascending indys -> (k < length (ncyc_ind indys))%nat ->
+  (nth k (ncyc_ind indys) 0 < n)%nat ->
+  nth (nth k (ncyc_ind indys) 0%nat) (n_cyc_of (T:=R) indys origin n) 0 = ncyc_val origin k.
+Proof. exact P_C11_sel.C11_ncyc_at_reported. Qed.
+(** ... hence +0.5 between consecutive reported peaks, and 0.25 (origin) / 0.5 (peak) from index 0 to the first one *)
+Theorem C11_ncyc_half_step : forall origin k, (1 <= k)%nat -> ncyc_val origin (S k) - ncyc_val origin k = / 2.
+Proof. intros origin k Hk. unfold ncyc_val. destruct k as [|k]; [lia|]. cbn [Nat.eqb]. rewrite !S_INR. lra. Qed.
+Theorem C11_ncyc_first_step : ncyc_val true 1 - ncyc_val true 0 = / 4 /\ ncyc_val false 1 - ncyc_val false 0 = / 2.
+Proof. unfold ncyc_val. cbn [Nat.eqb INR]. split; lra. Qed.
+(** non-decreasing *)
+Theorem C11_ncyc_nondecreasing : forall indys origin n, ascending indys -> nondecreasing (n_cyc_of (T:=R) indys origin n).
+Proof. exact P_C11_sel.C11_ncyc_nondecreasing. Qed.
+(** constant after the last reported index *)
+Theorem C11_ncyc_after_last : forall indys origin n i, ascending indys -> (List.last (ncyc_ind indys) 0 <= i < n)%nat ->
+  nth i (n_cyc_of (T:=R) indys origin n) 0 = ncyc_val origin (length (ncyc_ind indys) - 1).
+Proof. exact P_C11_sel.C11_ncyc_after_last. Qed.
+(** the two index lists the code feeds to the counter are strictly ascending *)
+Theorem C11_ncyc_inputs_ascending : forall (xs : list R), ascending (peaks xs) /\ ascending (switched_peaks 0 xs).
+Proof. intros xs. split; [apply P_C11.C11_ascending|apply P_C12.C12_sp_ascending]. Qed.
+
+(** Every clause of the property is now a theorem about the model. Between two reported indices the counter is the linear
+    interpolant (np.interp), so it is NOT constant there; what is proved is: the values at the reported indices, monotonicity
+    everywhere, and constancy after the last reported index. Still decided by the correspondence only: that the declarative
+    model ([peaks] as a filter over indices, [interp_pts]) is what the ediff1d/where/take pipeline and np.interp compute. *)
 
 Example C11_nonvacuous : peaks [1; 1; 2; 1]%R = [0; 2; 3]%nat.
 Proof.
@@ -56,4 +112,11 @@ Proof.
   | |- context [Reqb ?a ?b] => let H := fresh in destruct (Reqb a b) eqn:H; [apply Reqb_true in H|apply Reqb_false in H]; try lra
   | |- context [Rltb ?a ?b] => let H := fresh in destruct (Rltb a b) eqn:H; [apply Rltb_true in H|apply Rltb_false in H]; try lra
   end; cbn; try reflexivity.
+Qed.
+Example C11_sel_nonvacuous : first_up [1; 1; 2; 1]%R <> None.
+Proof.
+  unfold first_up, next_diff, xat. cbn [skipn next_diff_from nth]. numR.
+  repeat match goal with
+  | |- context [Reqb ?a ?b] => let H := fresh in destruct (Reqb a b) eqn:H; [apply Reqb_true in H|apply Reqb_false in H]; try lra
+  end; cbn; discriminate.
 Qed.
